@@ -1,27 +1,26 @@
-(* Model of the population table, its views, updates, reads and simulant creation (DESIGN.md C11, C12, C13).
+(* Model of the population table, view updates and simulant creation (DESIGN.md C11, C13).
+   (Reads through views - queries, the default tracked filter - are property C12: theories/PopRead.v.)
 
    Anchors (line numbers of /repo/src/vivarium/framework/population, docstrings stripped - tools/strip.py):
      population_view.py  PopulationView.columns 73-84            -> [view_columns]
                          PopulationView.subview 86-124           -> [subview]
-                         PopulationView.get 126-178              -> [get]
-                         PopulationView.update 180-225           -> [update]          (validate-all-then-assign, the
-                                                                                       code after the F-D repair)
-                         the loop as it was before the repair    -> [update_interleaved] (kept as documentation)
+                         PopulationView.update 180-225           -> [update]   (validate-all-then-assign: the code
+                                                                                after the F-D repair, commit cbcd0839)
+                         the loop as it was before the repair    -> [update_interleaved] (documentation + the
+                                                                                historical refutation witness)
                          _format_update_and_check_preconditions 235-341, _coerce_to_dataframe 344-401,
-                         _ensure_coherent_initialization 404-448 -> [coerce], [check_creating], [check_steady]
+                         _ensure_coherent_initialization 404-448 -> [update_checked], [coerce], [check_creating],
+                                                                    [check_steady]
                          _update_column_and_ensure_dtype 451-500 -> [build_col]
-     manager.py          _get_view 247-262                       -> [mk_view]  (conditional parenthesisation, the code
-                                                                               after the F-P repair; the old textual
-                                                                               append is [append_and_unparenthesised])
-                         _create_simulants 329-351               -> [create]
-                         get_population 357-372                  -> [cur_table]
-                         on_initialize_simulants 188-191         -> [tracked_initializer]
+     manager.py          _create_simulants 334-356               -> [create]
+                         get_population 362-377                  -> [cur_table]
+                         on_initialize_simulants 189-192         -> [tracked_initializer]
 
-   Conventions: column names are numbers ([cid]; 0 = "tracked"; ids >= 100 are names that contain the substring
-   "tracked", e.g. "was_tracked_100" - the code tests the SUBSTRING "tracked" in the query text); simulant labels are
-   Z; a table always has the labels 0..n-1 in this order (rows are never deleted, _create_simulants uses
-   range(len+count)); [Fv z] denotes the double z/2 (the correspondence uses multiples of 0.5 only), [Sv z] the z-th
-   interned string, [Tv z] a timestamp (days after the epoch of the harness), [Null] NaN/NaT/None.
+   Conventions: column names are numbers ([cid]; 0 = "tracked"); simulant labels are Z; a table always has the labels
+   0..n-1 in this order (rows are never deleted, _create_simulants uses range(len+count)); [Fv z] denotes the double
+   z/2 (the correspondence uses multiples of 0.5 only), [Sv z] the z-th interned string, [Tv z] a timestamp (days
+   after the epoch of the harness), [Null] NaN/NaT.  Column ORDER of the table is not part of any statement (it depends
+   on set iteration order during the initial creation); the correspondence compares tables sorted by column id.
    Aliasing ("the returned frame is a copy") cannot be exhibited by a Gallina model: checked directly by the harness. *)
 From Viv Require Import Common.
 Local Open Scope Z_scope.
@@ -31,8 +30,6 @@ Local Open Scope Z_scope.
 
 Definition cid := Z.
 Definition TRACKED : cid := 0.
-(* does the column's NAME contain the substring "tracked"? *)
-Definition name_has_tracked (c : cid) : bool := (c =? 0) || (100 <=? c).
 
 Inductive dtype := DBool | DInt | DFloat | DStr | DTime | DObj | DTimeNs.
 Definition dtype_code (d : dtype) : Z :=
@@ -56,7 +53,6 @@ Definition empty_table : table := mktbl 0 [].
 
 Definition column_eqb (a b : column) : bool :=
   (cname a =? cname b) && dtype_eqb (cdt a) (cdt b) && cells_eqb (ccells a) (ccells b).
-Definition table_eqb (a b : table) : bool := Nat.eqb (tn a) (tn b) && list_eqb column_eqb (tcols a) (tcols b).
 
 Fixpoint find_col (cs : list column) (c : cid) : option column :=
   match cs with [] => None | k :: r => if cname k =? c then Some k else find_col r c end.
@@ -72,6 +68,8 @@ Definition cell_at (t : table) (c : cid) (l : Z) : option cell :=
   | Some k => if has_label t l then Some (cell_of k l) else None
   | None => None
   end.
+Definition dtype_at (t : table) (c : cid) : option dtype :=
+  match find_col (tcols t) c with Some k => Some (cdt k) | None => None end.
 
 (* df[c] = series : an existing column is replaced in place, a new one is appended *)
 Fixpoint put_col (cs : list column) (k : column) : list column :=
@@ -80,160 +78,44 @@ Fixpoint put_col (cs : list column) (k : column) : list column :=
   | x :: r => if cname x =? cname k then k :: r else x :: put_col r k
   end.
 
-(* numpy fancy assignment  values[positions] = new : done left to right, so the last value wins for a repeated label *)
+(* values[positions] = new.  numpy-backed arrays (bool, int64, float64, object, datetime64) assign left to right, so
+   the LAST value wins for a repeated label; the Arrow-backed `str` array keeps the FIRST one (measured, pandas 3.0.6 /
+   pyarrow 25).  Either way the cell receives one of the values supplied for it. *)
 Fixpoint set_nth (n : nat) (v : cell) (l : list cell) : list cell :=
   match l, n with [], _ => [] | _ :: r, O => v :: r | x :: r, S n' => x :: set_nth n' v r end.
-Fixpoint write_cells (cs : list cell) (idx : list Z) (vals : list cell) : list cell :=
-  match idx, vals with
-  | l :: ir, v :: vr => write_cells (set_nth (Z.to_nat l) v cs) ir vr
-  | _, _ => cs
+Definition write_pairs (cs : list cell) (ps : list (Z * cell)) : list cell :=
+  fold_left (fun acc p => set_nth (Z.to_nat (fst p)) (snd p) acc) ps cs.
+Definition first_wins (d : dtype) : bool := match d with DStr => true | _ => false end.
+Definition pairs_for (d : dtype) (idx : list Z) (vals : list cell) : list (Z * cell) :=
+  if first_wins d then rev (combine idx vals) else combine idx vals.
+Definition write_cells (d : dtype) (cs : list cell) (idx : list Z) (vals : list cell) : list cell :=
+  write_pairs cs (pairs_for d idx vals).
+(* the value that ends up in the cell of label l, if one was supplied (specification of [write_pairs]) *)
+Fixpoint last_pair (l : Z) (ps : list (Z * cell)) (acc : option cell) : option cell :=
+  match ps with
+  | [] => acc
+  | (i, v) :: r => last_pair l r (if i =? l then Some v else acc)
   end.
-(* the value supplied last for label l, if any (specification of [write_cells]) *)
-Fixpoint last_for (l : Z) (idx : list Z) (vals : list cell) (acc : option cell) : option cell :=
-  match idx, vals with
-  | i :: ir, v :: vr => last_for l ir vr (if i =? l then Some v else acc)
-  | _, _ => acc
-  end.
+Definition supplied (d : dtype) (l : Z) (idx : list Z) (vals : list cell) : option cell :=
+  last_pair l (pairs_for d idx vals) None.
 
 Fixpoint nodupb (l : list Z) : bool := match l with [] => true | x :: r => negb (zmem x r) && nodupb r end.
 Fixpoint dedup (l : list Z) : list Z :=
   match l with [] => [] | x :: r => if zmem x r then dedup r else x :: dedup r end.
-
-(* ================================================================================================================ *)
-(** * Queries (the fragment of DataFrame.query the correspondence generates) *)
-
-Inductive cmp := CEq | CNe | CLt | CLe | CGt | CGe.
-Inductive qexpr :=
-  | QCmp (c : cid) (o : cmp) (k : cell)      (* column <op> constant *)
-  | QCol (c : cid)                           (* a bare boolean column *)
-  | QAnd (a b : qexpr) | QOr (a b : qexpr) | QNot (a : qexpr)
-  | QParen (a : qexpr).                      (* explicit parentheses in the query TEXT (semantically the identity) *)
-
-Fixpoint q_cols (q : qexpr) : list cid :=
-  match q with
-  | QCmp c _ _ | QCol c => [c]
-  | QAnd a b | QOr a b => q_cols a ++ q_cols b
-  | QNot a | QParen a => q_cols a
-  end.
-(* manager.py 254: `"tracked" not in query` is a SUBSTRING test on the text: every column whose name contains
-   "tracked" counts (string constants of the correspondence never do) *)
-Definition mentions_tracked (q : qexpr) : bool := existsb name_has_tracked (q_cols q).
-(* manager.py 255: re.search(r"\bor\b|\|", query) - an `or` anywhere in the text *)
-Fixpoint contains_or (q : qexpr) : bool :=
-  match q with
-  | QCmp _ _ _ | QCol _ => false
-  | QOr _ _ => true
-  | QAnd a b => contains_or a || contains_or b
-  | QNot a | QParen a => contains_or a
-  end.
-
-(* numeric value of a cell in halves *)
-Definition num2 (c : cell) : option Z := match c with Iv z => Some (2 * z) | Fv z => Some z | _ => None end.
-Definition cmp_z (o : cmp) (a b : Z) : bool :=
-  match o with CEq => a =? b | CNe => negb (a =? b) | CLt => a <? b | CLe => a <=? b | CGt => a >? b | CGe => a >=? b end.
-(* None = the comparison is outside the generated fragment (may raise / coerce in pandas) *)
-Definition cmp_cells (o : cmp) (x k : cell) : option bool :=
-  match x, k with
-  | Null, _ => Some (match o with CNe => true | _ => false end)     (* NaN/NaT/None compare false, != true *)
-  | Bv a, Bv b => match o with CEq => Some (Bool.eqb a b) | CNe => Some (negb (Bool.eqb a b)) | _ => None end
-  | Sv a, Sv b => match o with CEq => Some (a =? b) | CNe => Some (negb (a =? b)) | _ => None end
-  | Tv a, Tv b => match o with CEq | CNe => None | _ => Some (cmp_z o a b) end   (* == with a date string never matches *)
-  | _, _ => match num2 x, num2 k with Some a, Some b => Some (cmp_z o a b) | _, _ => None end
-  end.
-
-Fixpoint eval_row (t : table) (q : qexpr) (l : Z) : option bool :=
-  match q with
-  | QCmp c o k => match cell_at t c l with Some x => cmp_cells o x k | None => None end
-  | QCol c => match cell_at t c l with Some (Bv b) => Some b | _ => None end
-  | QAnd a b => match eval_row t a l, eval_row t b l with Some x, Some y => Some (x && y) | _, _ => None end
-  | QOr a b => match eval_row t a l, eval_row t b l with Some x, Some y => Some (x || y) | _, _ => None end
-  | QNot a => match eval_row t a l with Some x => Some (negb x) | None => None end
-  | QParen a => eval_row t a l
-  end.
-
-(* pop.query(q): UndefinedVariableError if a column is missing (also on an empty frame); rows kept in order *)
-Fixpoint filter_rows (t : table) (q : qexpr) (rows : list Z) : option (list Z) :=
-  match rows with
-  | [] => Some []
-  | l :: r =>
-      match eval_row t q l, filter_rows t q r with
-      | Some b, Some r' => Some (if b then l :: r' else r')
-      | _, _ => None
-      end
-  end.
-Definition apply_query (t : table) (q : option qexpr) (rows : list Z) : result (list Z) :=
-  match q with
-  | None => Ok rows                                      (* `if self.query:` - the empty string *)
-  | Some e =>
-      if forallb (has_col t) (q_cols e)
-      then match filter_rows t e rows with Some r => Ok r | None => Rejected EOther end
-      else Rejected EOther
-  end.
-
-(* ================================================================================================================ *)
-(** * Views *)
-
-Record view := mkview { vcols : list cid (* [] = all columns *); vquery : option qexpr (* None = "" *) }.
 Definition is_nil {A} (l : list A) : bool := match l with [] => true | _ => false end.
 
-Definition tracked_eq_true : qexpr := QCmp TRACKED CEq (Bv true).
+(* ================================================================================================================ *)
+(** * Views (only what [update] uses of them: the column list; the query plays no role in an update) *)
 
-(* What `query += " and tracked == True"` does to the PARSE of the text: `and` binds tighter than `or`, so the new
-   conjunct attaches to the last operand of an unparenthesised top-level `or` (this was finding F-P). *)
-Fixpoint append_and_unparenthesised (q : qexpr) (extra : qexpr) : qexpr :=
-  match q with
-  | QOr a b => QOr a (append_and_unparenthesised b extra)
-  | _ => QAnd q extra
-  end.
-(* the code now: parenthesise first if the text contains an `or`, then append *)
-Definition append_tracked (q : qexpr) : qexpr :=
-  append_and_unparenthesised (if contains_or q then QParen q else q) tracked_eq_true.
-
-(* PopulationManager._get_view *)
-Definition mk_view_with (app : qexpr -> qexpr) (cols : list cid) (q : option qexpr) : view :=
-  if negb (is_nil cols) && negb (zmem TRACKED cols) then
-    match q with
-    | None => mkview cols (Some tracked_eq_true)
-    | Some e => if mentions_tracked e then mkview cols (Some e) else mkview cols (Some (app e))
-    end
-  else mkview cols q.
-Definition mk_view := mk_view_with append_tracked.
-(* the code before the F-P repair *)
-Definition mk_view_old := mk_view_with (fun e => append_and_unparenthesised e tracked_eq_true).
+Record view := mkview { vcols : list cid (* [] = all columns *) }.
 
 (* PopulationView.columns *)
 Definition view_columns (t : table) (v : view) : list cid := match vcols v with [] => col_names t | l => l end.
 
-(* PopulationView.subview: non-empty subset of the parent's columns, parent's (final) query, rule applied again *)
+(* PopulationView.subview: non-empty subset of the parent's columns *)
 Definition subview (t : table) (v : view) (cols : list cid) : result view :=
   if is_nil cols || existsb (fun c => negb (zmem c (view_columns t v))) cols then Rejected EPopulation
-  else Ok (mk_view cols (vquery v)).
-
-Record frame := mkframe { flabels : list Z; fcols : list column }.
-
-Definition project (t : table) (rows : list Z) (c : cid) : column :=
-  match find_col (tcols t) c with
-  | Some k => mkcol c (cdt k) (map (cell_of k) rows)
-  | None => mkcol c DObj []
-  end.
-
-(* PopulationView.get(index, query) *)
-Definition get (t : table) (v : view) (idx : list Z) (q : option qexpr) : result frame :=
-  if negb (forallb (has_label t) idx) then Rejected EOther else                     (* .loc[index]: KeyError *)
-  let filtered :=
-    if is_nil idx then Ok idx                                                        (* `if not index.empty:` *)
-    else match apply_query t (vquery v) idx with
-         | Ok r1 => apply_query t q r1
-         | other => other
-         end in
-  match filtered with
-  | Ok rows =>
-      let cols := view_columns t v in
-      if negb (forallb (has_col t) cols) then Rejected EPopulation                   (* non_existent_columns *)
-      else Ok (mkframe rows (map (project t rows) cols))                             (* pop.loc[:, self.columns] *)
-  | Rejected e => Rejected e
-  | OutOfFuel => OutOfFuel
-  end.
+  else Ok (mkview cols).
 
 (* ================================================================================================================ *)
 (** * Updates *)
@@ -248,7 +130,7 @@ Record flags := mkflags { creating : bool; adding : bool }.
 Definition steady : flags := mkflags false false.
 
 Inductive why :=
-  | WAssert | WNotPandas | WUnnamed | WExtraCols | WNoCols | WUnknownRows
+  | WAssert | WNotPandas | WUnnamed | WExtraCols | WNoCols | WDupCols | WUnknownRows
   | WMissingRows | WNoNewCols | WInitConflict | WNewCols | WAddConflict
   | WDtype | WCast | WDupIndex.
 Inductive outcome := Pass | Fail (w : why) | Unmodelled.
@@ -275,15 +157,25 @@ Definition coerce (vc : list cid) (u : upd) : (list Z * list ucol) + why :=
       else inl (idx, cols)
   end.
 
-(* the iteration order of list(set(update) <op> state_table): [ord] is what the interpreter did (read off the same
-   expression by the harness); whatever is passed, every relevant column is visited exactly once *)
+(* the iteration order of list(set(update) <op> state_table): [ord] is what the interpreter did (any list at all may
+   be passed); whatever is passed, every relevant column is visited exactly once *)
 Definition order_by (ord : list cid) (names : list cid) : list cid :=
   dedup (filter (fun c => zmem c names) ord ++ filter (fun c => negb (zmem c ord)) names).
 
-(* Series.equals(state_table[column]) : same index (labels, order), same dtype, same values (NaN equal to NaN) *)
+(* Series.equals(state_table[column]) : same index (labels, order), same dtype, same values (NaN equal to NaN).
+   Object arrays are compared element-wise with Python's ==, for which True == 1 == 1.0 and False == 0 == 0.0. *)
+Definition py_num (c : cell) : option Z :=
+  match c with Bv b => Some (if b then 2 else 0) | Iv z => Some (2 * z) | Fv z => Some z | _ => None end.
+Definition cell_pyeqb (a b : cell) : bool :=
+  match py_num a, py_num b with
+  | Some x, Some y => x =? y
+  | _, _ => cell_eqb a b
+  end.
+Definition values_equal (d : dtype) (a b : list cell) : bool :=
+  match d with DObj => list_eqb cell_pyeqb a b | _ => cells_eqb a b end.
 Definition series_equals_col (t : table) (idx : list Z) (u : ucol) : bool :=
   match find_col (tcols t) (uname u) with
-  | Some k => zlist_eqb idx (labels t) && dtype_eqb (udt u) (cdt k) && cells_eqb (ucells u) (ccells k)
+  | Some k => zlist_eqb idx (labels t) && dtype_eqb (udt u) (cdt k) && values_equal (cdt k) (ucells u) (ccells k)
   | None => false
   end.
 
@@ -299,7 +191,7 @@ Definition add_conflict (t : table) (idx : list Z) (u : ucol) : bool :=
   match find_col (tcols t) (uname u) with
   | Some k =>
       let cur := map (cell_of k) idx in
-      existsb notnull cur && negb (dtype_eqb (udt u) (cdt k) && cells_eqb (ucells u) cur)
+      existsb notnull cur && negb (dtype_eqb (udt u) (cdt k) && values_equal (cdt k) (ucells u) cur)
   | None => false
   end.
 
@@ -307,6 +199,15 @@ Definition check_steady (t : table) (f : flags) (idx : list Z) (us : list ucol) 
   if negb (forallb (fun u => has_col t (uname u)) us) then Some WNewCols
   else if adding f && existsb (add_conflict t idx) us then Some WAddConflict
   else None.
+
+(* int64 -> float64 is round-to-nearest-even: exact up to 2^53 in magnitude, lossy beyond *)
+Definition TWO53 : Z := 9007199254740992.
+Definition f64_of_int (z : Z) : Z :=
+  let a := Z.abs z in
+  if a <=? TWO53 then z else
+  let m := 2 ^ (Z.log2 a - 52) in
+  let q := a / m in let r := a mod m in let h := m / 2 in
+  Z.sgn z * ((if (h <? r) || ((r =? h) && Z.odd q) then q + 1 else q) * m).
 
 (* ---- the dtype rule of _update_column_and_ensure_dtype, measured on pandas 3.0.6 / numpy 1.26.4 ---- *)
 Definition truthy (c : cell) : option bool :=
@@ -322,7 +223,7 @@ Definition cast_cell (d : dtype) (c : cell) : castres :=
             | _ => CastUnmodelled
             end
   | DFloat => match c with
-              | Null => CastOk Null | Bv b => CastOk (Fv (if b then 2 else 0)) | Iv z => CastOk (Fv (2 * z)) | Fv z => CastOk (Fv z)
+              | Null => CastOk Null | Bv b => CastOk (Fv (if b then 2 else 0)) | Iv z => CastOk (Fv (2 * f64_of_int z)) | Fv z => CastOk (Fv z)
               | _ => CastUnmodelled
               end
   | DObj => match c with Sv _ | Tv _ => CastUnmodelled | _ => CastOk c end
@@ -344,7 +245,7 @@ Definition numeric (d : dtype) : bool := match d with DBool | DInt | DFloat | DO
 (* new column for one update column: positional write into a copy, dtype kept or the update rejected; while simulants
    are being added ANY dtype is accepted and the WHOLE column is cast to the update's dtype (finding F-L) *)
 Definition build_col (addingf : bool) (k : column) (idx : list Z) (u : ucol) : column + outcome :=
-  if dtype_eqb (udt u) (cdt k) then inl (mkcol (cname k) (cdt k) (write_cells (ccells k) idx (ucells u)))
+  if dtype_eqb (udt u) (cdt k) then inl (mkcol (cname k) (cdt k) (write_cells (cdt k) (ccells k) idx (ucells u)))
   else if negb addingf then inr (Fail WDtype)
   else match cdt k, udt u with
        | DStr, _ => inr (Fail WDtype)                      (* str array refuses non-strings: TypeError *)
@@ -354,7 +255,7 @@ Definition build_col (addingf : bool) (k : column) (idx : list Z) (u : ucol) : c
            if numeric dc && numeric du then
              match cast_cells dc (ucells u) with           (* setitem coerces the new values to the array's dtype *)
              | inl vals =>
-                 match cast_cells du (write_cells (ccells k) idx vals) with   (* .astype(update dtype), whole column *)
+                 match cast_cells du (write_cells dc (ccells k) idx vals) with   (* .astype(update dtype), whole column *)
                  | inl cs => inl (mkcol (cname k) du cs)
                  | inr o => inr o
                  end
@@ -383,7 +284,7 @@ Definition set_cols (t : table) (cs : list column) : table := mktbl (tn t) cs.
 (* initial creation: self._manager.population[new_columns] = population_update[new_columns]; each column is aligned
    on the table's index (reindex raises on duplicate labels) *)
 Definition align (t : table) (idx : list Z) (vals : list cell) : list cell :=
-  map (fun l => match last_for l idx vals None with Some v => v | None => Null end) (labels t).
+  map (fun l => match last_pair l (combine idx vals) None with Some v => v | None => Null end) (labels t).
 Definition assign_new (t : table) (idx : list Z) (us : list ucol) (cs : list cid) : list column :=
   fold_left (fun acc c => match find_ucol us c with
                           | Some u => put_col acc (mkcol c (udt u) (align t idx (ucells u)))
@@ -401,22 +302,27 @@ Definition update_checked (t : table) (v : view) (f : flags) (u : upd) : (list Z
       end
   end.
 
-(* PopulationView.update as it is now: every column is built (validated) before any is assigned *)
+(* PopulationView.update as it is now: every column is built (validated) before any is assigned.
+   A frame with a repeated column name passes the structural checks and is rejected when its columns are used, always
+   before anything is written (update[column] is then a frame, not a series: AttributeError / ValueError): [WDupCols];
+   with an empty index in steady state nothing is used and nothing happens. *)
 Definition update (t : table) (v : view) (f : flags) (ord : list cid) (u : upd) : table * outcome :=
   match update_checked t v f u with
   | inr w => (t, Fail w)
   | inl (idx, us) =>
       if creating f then
-        if negb (nodupb idx) then (t, Fail WDupIndex)
+        if negb (nodupb (unames us)) then (t, Fail WDupCols)
+        else if negb (nodupb idx) then (t, Fail WDupIndex)
         else (set_cols t (assign_new t idx us (order_by ord (filter (fun c => negb (has_col t c)) (unames us)))), Pass)
       else if is_nil idx then (t, Pass)                                                      (* population_update.empty *)
+      else if negb (nodupb (unames us)) then (t, Fail WDupCols)
       else match build_all (adding f) t idx us (order_by ord (filter (has_col t) (unames us))) with
            | inl ks => (set_cols t (fold_left put_col ks (tcols t)), Pass)
            | inr o => (t, o)
            end
   end.
 
-(* ---- the loop before the F-D repair: build a column, assign it immediately, go on ---- *)
+(* ---- the loop before the F-D repair (commit cbcd0839): build a column, assign it immediately, go on ---- *)
 Fixpoint loop_interleaved (addingf : bool) (t0 : table) (idx : list Z) (us : list ucol) (cs : list cid)
          (cur : list column) : list column * outcome :=
   match cs with
@@ -437,6 +343,7 @@ Definition update_interleaved (t : table) (v : view) (f : flags) (ord : list cid
   | inl (idx, us) =>
       if creating f then update t v f ord u
       else if is_nil idx then (t, Pass)
+      else if negb (nodupb (unames us)) then (t, Fail WDupCols)
       else let '(cs, o) := loop_interleaved (adding f) t idx us (order_by ord (filter (has_col t) (unames us))) (tcols t) in
            (set_cols t cs, o)
   end.
@@ -454,7 +361,8 @@ Definition nrows (st : pstate) : nat := tn (cur_table st).
 (* DataFrame.reindex(range(n + count)): old rows kept, new rows null; introducing nulls promotes bool -> object and
    int64 -> float64 (count = 0 introduces none and promotes nothing) *)
 Definition promote (d : dtype) : dtype := match d with DBool => DObj | DInt => DFloat | d => d end.
-Definition promote_cell (d : dtype) (c : cell) : cell := match d, c with DInt, Iv z => Fv (2 * z) | _, _ => c end.
+Definition promote_cell (d : dtype) (c : cell) : cell :=
+  match d, c with DInt, Iv z => Fv (2 * f64_of_int z) | _, _ => c end.
 Definition reindex (t : table) (count : nat) : table :=
   match count with
   | O => t
@@ -465,19 +373,22 @@ Definition reindex (t : table) (count : nat) : table :=
 
 Record simdata := mksimdata { sd_index : list Z; sd_user : Z; sd_time : Z; sd_step : Z }.
 
-(* what an initializer does with the table: a list of view updates; an update that raises is caught by the
-   initializer itself unless [a_propagate] *)
+(* What an initializer does with the table: view updates, each chosen knowing the table and the outcomes so far (a
+   strategy tree: [k] receives the table after the update and its outcome).  An update that raises is caught by the
+   initializer itself unless [a_propagate]. *)
 Record uaction := mkuaction { a_view : view; a_ord : list cid; a_upd : upd; a_propagate : bool }.
-Definition initializer := simdata -> table -> list uaction.
+Inductive istrat := IDone | IAct (a : uaction) (k : table -> outcome -> istrat).
+Definition initializer := simdata -> table -> istrat.
+Fixpoint of_list (acts : list uaction) : istrat :=
+  match acts with [] => IDone | a :: r => IAct a (fun _ _ => of_list r) end.
 
-(* run one initializer's updates under the flags; (table, raised?, outcomes) *)
-Fixpoint run_actions (f : flags) (t : table) (acts : list uaction) : table * bool * list outcome :=
-  match acts with
-  | [] => (t, false, [])
-  | a :: r =>
+(* run one initializer's updates under the flags; (table, did an exception propagate?) *)
+Fixpoint run_strat (f : flags) (t : table) (s : istrat) : table * bool :=
+  match s with
+  | IDone => (t, false)
+  | IAct a k =>
       let '(t', o) := update t (a_view a) f (a_ord a) (a_upd a) in
-      if negb (is_pass o) && a_propagate a then (t', true, [o])
-      else let '(t'', raised, os) := run_actions f t' r in (t'', raised, o :: os)
+      if negb (is_pass o) && a_propagate a then (t', true) else run_strat f t' (k t' o)
   end.
 
 Fixpoint run_inits (f : flags) (t : table) (sd : simdata) (inits : list initializer)
@@ -485,53 +396,55 @@ Fixpoint run_inits (f : flags) (t : table) (sd : simdata) (inits : list initiali
   match inits with
   | [] => (t, false, [])
   | i :: r =>
-      let '(t', raised, _) := run_actions f t (i sd t) in
+      let '(t', raised) := run_strat f t (i sd t) in
       if raised then (t', true, [sd])
       else let '(t'', raised', log) := run_inits f t' sd r in (t'', raised', sd :: log)
   end.
 
 (* PopulationManager._create_simulants.  Result: new state, the returned labels (Rejected: an initializer's exception
-   propagated - the rows stay, the flags stay set), the SimulantData seen by the initializers called *)
+   propagated - the rows stay, the flags stay set: they are not cleared in a `finally`), the SimulantData seen by the
+   initializers called *)
+Definition new_labels (n count : nat) : list Z := map Z.of_nat (seq n count).
 Definition create (st : pstate) (count : nat) (user clock step : Z) (inits : list initializer)
   : pstate * result (list Z) * list simdata :=
   let first := match ptbl st with None => true | Some _ => false end in
   let t0 := cur_table st in
   let f := mkflags (first || creating (pflags st)) true in
   let t1 := reindex t0 count in
-  let new_labels := map Z.of_nat (seq (tn t0) count) in
-  let sd := mksimdata new_labels user clock step in
+  let sd := mksimdata (new_labels (tn t0) count) user clock step in
   let '(t2, raised, log) := run_inits f t1 sd inits in
   if raised then (mkpstate (Some t2) f, Rejected EOther, log)
-  else (mkpstate (Some t2) steady, Ok new_labels, log).
+  else (mkpstate (Some t2) steady, Ok (new_labels (tn t0) count), log).
 
 (* the manager's own initializer (on_initialize_simulants): tracked = True for the new simulants, through the
-   one-column view ["tracked"], as an UNNAMED bool Series *)
-Definition tracked_view : view := mk_view [TRACKED] None.
+   one-column view ["tracked"], as an UNNAMED bool Series; its exception (if any) propagates *)
+Definition tracked_view : view := mkview [TRACKED].
+Definition tracked_upd (idx : list Z) : upd := USeries None DBool idx (map (fun _ => Bv true) idx).
 Definition tracked_initializer : initializer :=
-  fun sd _ => [mkuaction tracked_view [TRACKED] (USeries None DBool (sd_index sd) (map (fun _ => Bv true) (sd_index sd))) true].
+  fun sd _ => of_list [mkuaction tracked_view [TRACKED] (tracked_upd (sd_index sd)) true].
 
 (* ================================================================================================================ *)
 (** * Histories *)
 
 Inductive op :=
   | OpUpdate (v : view) (ord : list cid) (u : upd)
-  | OpGet (v : view) (idx : list Z) (q : option qexpr)
+  | OpRead                                            (* get_population / view.get: no effect on the state *)
   | OpCreate (count : nat) (user clock step : Z) (inits : list initializer).
 
 Inductive response :=
   | RUpdate (o : outcome)
-  | RGet (r : result frame)
+  | RRead (t : table)
   | RCreate (r : result (list Z)) (log : list simdata).
 
 Definition step (st : pstate) (o : op) : pstate * response :=
   match o with
   | OpUpdate v ord u =>
       let '(t', out) := update (cur_table st) v (pflags st) ord u in
-      (match ptbl st, is_pass out with
-       | None, false => st                                   (* nothing was written: _population stays None *)
-       | _, _ => mkpstate (Some t') (pflags st)
+      (match ptbl st with
+       | None => st          (* _population is None: every update is rejected (PopulationProofs.update_none_rejected) *)
+       | Some _ => mkpstate (Some t') (pflags st)     (* whatever [update] left behind, accepted or not *)
        end, RUpdate out)
-  | OpGet v idx q => (st, RGet (get (cur_table st) v idx q))
+  | OpRead => (st, RRead (cur_table st))
   | OpCreate count user clock stp inits =>
       let '(st', r, log) := create st count user clock stp inits in (st', RCreate r log)
   end.
@@ -554,34 +467,44 @@ Fixpoint effective (st : pstate) (ops : list op) : list op :=
   | o :: r => if effective_op st o then o :: effective (fst (step st o)) r else effective (fst (step st o)) r
   end.
 
-(* all labels handed out (or at least created) by the creations of a history, in order *)
-Fixpoint created (st : pstate) (ops : list op) : list Z :=
+(* the label lists of the creations of a history, in order *)
+Fixpoint created (st : pstate) (ops : list op) : list (list Z) :=
   match ops with
   | [] => []
   | o :: r =>
       (match o with
-       | OpCreate count _ _ _ _ => map Z.of_nat (seq (nrows st) count)
+       | OpCreate count _ _ _ _ => [new_labels (nrows st) count]
        | _ => []
        end) ++ created (fst (step st o)) r
   end.
 
 (* ================================================================================================================ *)
-(** * Correspondence with the implementation (harness/props/popdrv.py drives a real SimulationContext) *)
+(** * Correspondence with the implementation (harness/props/popdrv.py drives a real InteractiveContext) *)
 
 (* views are described by how they were obtained *)
-Inductive vspec := VBase (cols : list cid) (q : option qexpr) | VSub (p : vspec) (cols : list cid).
+Inductive vspec := VBase (cols : list cid) | VSub (p : vspec) (cols : list cid).
 Fixpoint resolve (t : table) (s : vspec) : result view :=
   match s with
-  | VBase cols q => Ok (mk_view cols q)
+  | VBase cols => Ok (mkview cols)
   | VSub p cols => match resolve t p with Ok v => subview t v cols | other => other end
   end.
+
+(* tables are compared up to column order *)
+Fixpoint insert_col (k : column) (cs : list column) : list column :=
+  match cs with
+  | [] => [k]
+  | x :: r => if cname k <=? cname x then k :: x :: r else x :: insert_col k r
+  end.
+Definition sort_cols (cs : list column) : list column := fold_right insert_col [] cs.
+Definition table_eqb (a b : table) : bool :=
+  Nat.eqb (tn a) (tn b) && list_eqb column_eqb (sort_cols (tcols a)) (sort_cols (tcols b)).
 
 Inductive tobs := TSame | TNew (t : table) | TUnobserved.
 Inductive xact :=
   (* observed code: 0 accepted, 1 PopulationError, 2 TypeError, 3 other; [prop]: the exception is NOT caught by the
      initializer issuing the update (it propagates out of _create_simulants) *)
   | AUpdate (s : vspec) (ord : list cid) (u : upd) (prop : bool) (code : Z)
-  | AGet (s : vspec) (idx : list Z) (q : option qexpr) (code : Z) (f : frame)
+  | ARead                                                            (* a read (or nothing): the table is observed *)
   | AUnobserved (s : vspec) (ord : list cid) (u : upd).               (* the manager's own initializer *)
 Definition act_rec := (xact * tobs)%type.
 Inductive xop :=
@@ -589,17 +512,15 @@ Inductive xop :=
   | XCreate (count : nat) (user clock step : Z) (scripts : list (list act_rec))
             (code : Z) (labels : list Z) (log : list simdata) (after : tobs).
 
+(* the property only says "rejected": the exception class is not compared *)
 Definition code_matches (o : outcome) (code : Z) : bool :=
   match o with
   | Pass => code =? 0
-  | Fail WNotPandas => code =? 2
-  | Fail WAssert | Fail WDtype | Fail WCast | Fail WDupIndex => negb (code =? 0)      (* "rejected": any class *)
-  | Fail _ => code =? 1                                                                (* PopulationError *)
+  | Fail _ => negb (code =? 0)
   | Unmodelled => false
   end.
 Definition rcode {A} (r : result A) : Z :=
   match r with Ok _ => 0 | Rejected EPopulation => 1 | Rejected _ => 3 | OutOfFuel => 4 end.
-Definition frame_eqb (a b : frame) : bool := zlist_eqb (flabels a) (flabels b) && list_eqb column_eqb (fcols a) (fcols b).
 Definition simdata_eqb (a b : simdata) : bool :=
   zlist_eqb (sd_index a) (sd_index b) && (sd_user a =? sd_user b) && (sd_time a =? sd_time b) && (sd_step a =? sd_step b).
 
@@ -624,8 +545,8 @@ Definition run_act (f : flags) (t last : table) (a : act_rec) : act_out :=
           let '(t', out) := update t v f ord u in
           let '(okt, last') := obs_ok t' last o in
           mkout (code_matches out code && okt) t' last' [mkuaction v ord u prop] (negb (is_pass out) && prop)
-      | other => let '(okt, last') := obs_ok t last o in
-                 mkout ((rcode other =? code) && okt && negb prop) t last' [] false
+      | _ => let '(okt, last') := obs_ok t last o in                  (* subview() refused: nothing is updated *)
+             mkout (negb (code =? 0) && okt && negb prop) t last' [] false
       end
   | AUnobserved s ord u =>
       match resolve t s with
@@ -633,14 +554,7 @@ Definition run_act (f : flags) (t last : table) (a : act_rec) : act_out :=
                 let '(okt, last') := obs_ok t' last o in mkout (is_pass out && okt) t' last' [mkuaction v ord u true] false
       | _ => mkout false t last [] false
       end
-  | AGet s idx q code fr =>
-      let '(okt, last') := obs_ok t last o in
-      match resolve t s with
-      | Ok v =>
-          let r := get t v idx q in
-          mkout ((rcode r =? code) && match r with Ok fm => frame_eqb fm fr | _ => true end && okt) t last' [] false
-      | other => mkout ((rcode other =? code) && okt) t last' [] false
-      end
+  | ARead => let '(okt, last') := obs_ok t last o in mkout okt t last' [] false
   end.
 
 Fixpoint run_acts (f : flags) (t last : table) (acts : list act_rec) : act_out :=
@@ -664,26 +578,22 @@ Fixpoint run_scripts (f : flags) (t last : table) (scripts : list (list act_rec)
            (o_ok o1 && ok2, t2, last2, o_acts o1 :: acts2, raised2)
   end.
 
-Definition pstate_eqb (a b : pstate) : bool :=
-  match ptbl a, ptbl b with Some x, Some y => table_eqb x y | None, None => true | _, _ => false end
-  && Bool.eqb (creating (pflags a)) (creating (pflags b)) && Bool.eqb (adding (pflags a)) (adding (pflags b)).
-
 (* the history of one real simulation: model state, last observed table.  A creation is replayed twice: action by
    action against the per-action observations, and through [create] (the function the theorems are about) with the
-   initializers the scripts denote; both must give the same state. *)
+   initializers the scripts denote; both must give the same state.  A top-level action goes through [step]. *)
 Fixpoint run_case (st : pstate) (last : table) (ops : list xop) : bool :=
   match ops with
   | [] => true
   | XAct a :: r =>
       let o1 := run_act (pflags st) (cur_table st) last a in
-      o_ok o1 && negb (o_raised o1)
-      && run_case (mkpstate (match ptbl st with None => None | Some _ => Some (o_tbl o1) end) (pflags st)) (o_last o1) r
+      let st' := fold_left (fun s ua => fst (step s (OpUpdate (a_view ua) (a_ord ua) (a_upd ua)))) (o_acts o1) st in
+      o_ok o1 && table_eqb (cur_table st') (o_tbl o1) && run_case st' (o_last o1) r
   | XCreate count user clock stp scripts code labs log after :: r =>
       let first := match ptbl st with None => true | Some _ => false end in
       let f := mkflags (first || creating (pflags st)) true in
       let '(ok1, t2, last1, acts, raised) := run_scripts f (reindex (cur_table st) count) last scripts in
       let '(okt, last2) := obs_ok t2 last1 after in
-      let '(st', res, log') := create st count user clock stp (map (fun a => (fun _ _ => a) : initializer) acts) in
+      let '(st', res, log') := create st count user clock stp (map (fun a => (fun _ _ => of_list a) : initializer) acts) in
       ok1 && okt && table_eqb (cur_table st') t2 && Bool.eqb raised (negb (code =? 0))
       && match res with Ok l => (code =? 0) && zlist_eqb l labs | _ => negb (code =? 0) end
       && list_eqb simdata_eqb log' log
